@@ -102,11 +102,12 @@ const PROFILES: &[Profile] = &[
     prof("churn", "map", "churn"),
     prof("saturate", "map", "saturate"),
     prof("mixed", "map", "mixed"),
+    prof("reserve", "map", "reserve"),
     // fault sweeps
     Profile { sweep: Some("panic"), sweep_ops: 6, sweep_k: 16, steps: Some(70), ..prof("panic-mixed", "map", "mixed") },
     Profile { sweep: Some("panic"), sweep_ops: 4, sweep_k: 24, steps: Some(90), drop: Some(true), ..prof("panic-sat-drop", "map", "saturate") },
     Profile { sweep: Some("panic"), sweep_ops: 4, sweep_k: 24, steps: Some(90), drop: Some(false), ..prof("panic-sat-nodrop", "map", "saturate") },
-    Profile { sweep: Some("alloc"), sweep_ops: 8, sweep_k: 8, steps: Some(60), ..prof("alloc-mixed", "map", "mixed") },
+    Profile { sweep: Some("alloc"), sweep_ops: 8, sweep_k: 8, steps: Some(60), ..prof("alloc-reserve", "map", "reserve") },
 ];
 
 
@@ -119,6 +120,15 @@ struct Base {
     ops: Vec<String>,           // without leading "op "
     counters: Vec<[u64; 6]>,    // (hc, ec, cc, pc, ac, dc) before each op, plus one after the last
     universe: u64,
+    inplace: Vec<bool>,         // op performed an in-place rehash (tombstones gone, same bucket count)
+}
+
+fn deleted_of(d: &hashbrown::verif::Dump) -> usize {
+    if d.is_singleton {
+        0
+    } else {
+        d.ctrl[..=d.bucket_mask].iter().filter(|&&b| b == 0x80).count()
+    }
 }
 
 fn counters_now() -> [u64; 6] {
@@ -171,6 +181,7 @@ fn make_base(prof: &Profile, seed: u64, i: usize, real: Option<&mut dyn Write>) 
     let mut g = gen::Gen::new(rng.next(), universe, prof.gen);
     let mut ops = Vec::new();
     let mut counters = Vec::new();
+    let mut inplace = Vec::new();
     let mut real = real;
     if let Some(r) = real.as_mut() {
         writeln!(r, "scn {}", id).unwrap();
@@ -179,7 +190,17 @@ fn make_base(prof: &Profile, seed: u64, i: usize, real: Option<&mut dyn Write>) 
         let op = g.next(runner.as_ref());
         counters.push(counters_now());
         let toks: Vec<&str> = op.split_whitespace().collect();
+        let before = runner.dump(toks[0]);
+        let hc0 = counters_now()[0];
         let obs = runner.op(toks[0], toks[1], &toks[2..]);
+        let after = runner.dump(toks[0]);
+        inplace.push(
+            before.bucket_mask == after.bucket_mask
+                && deleted_of(&before) > 0
+                && deleted_of(&after) == 0
+                && counters_now()[0] - hc0 >= before.items as u64
+                && before.items > 0,
+        );
         if let Some(r) = real.as_mut() {
             writeln!(r, "{}", obs).unwrap();
         }
@@ -194,7 +215,7 @@ fn make_base(prof: &Profile, seed: u64, i: usize, real: Option<&mut dyn Write>) 
             writeln!(r, "end ORACLE {}", complaints.join(" | ")).unwrap();
         }
     }
-    Base { id, coll: prof.coll, drop, lay, pre, ops, counters, universe }
+    Base { id, coll: prof.coll, drop, lay, pre, ops, counters, universe, inplace }
 }
 
 fn write_header(ops: &mut dyn Write, b: &Base, id: &str) {
@@ -237,15 +258,22 @@ fn sweep(prof: &Profile, seed: u64, count: usize, ops: &mut dyn Write, real: &mu
         let b = make_base(prof, seed, i, None);
         let mut rng = Rng::new(mix3(seed, i as u64, 0x77));
         // ops that invoked callbacks; prefer the rare heavy ones (rehash/resize/clone/retain)
+        let fallible_only = prof.sweep.unwrap() == "alloc";
         let mut cand: Vec<usize> = (0..b.ops.len())
             .filter(|&j| classes.iter().any(|&(_, c)| b.counters[j + 1][c] > b.counters[j][c]))
+            .filter(|&j| !fallible_only || b.ops[j].split_whitespace().nth(1) == Some("try_reserve"))
             .collect();
         cand.sort_by_key(|&j| {
             let d: u64 = classes.iter().map(|&(_, c)| b.counters[j + 1][c] - b.counters[j][c]).sum();
             std::cmp::Reverse(d)
         });
-        let heavy: Vec<usize> = cand.iter().copied().take(prof.sweep_ops / 2).collect();
-        let mut chosen = heavy.clone();
+        // in-place rehashes first (rare, guarded), then the heaviest, then random ones
+        let mut chosen: Vec<usize> = cand.iter().copied().filter(|&j| b.inplace[j]).take(2).collect();
+        for &j in cand.iter().take(prof.sweep_ops / 2) {
+            if !chosen.contains(&j) {
+                chosen.push(j);
+            }
+        }
         while chosen.len() < prof.sweep_ops && chosen.len() < cand.len() {
             let j = *rng.pick(&cand);
             if !chosen.contains(&j) {
